@@ -600,6 +600,11 @@ def check_attr_helpers(ctx):
         elif how == 'next':
             if Universe().implies(cond, to_formula(parse_expr('%s == %s' % (var, j_p)))) is not None:
                 bad = bad or 'an output attribute other than the join attribute is not projected'
+    # the loop runs exactly when output attributes were requested
+    gc = Conds(g.node, None).of(lp)
+    okg = any(Universe().equivalent(gc, to_formula(parse_expr(x))) is None for x in ('%s is not None' % o_p, '%s' % o_p, 'True'))
+    if not okg:
+        bad = bad or 'the output attributes are projected under `%s`, not whenever they are given' % show(gc)[:80]
     ctx.check('R-DT/attrs-to-project', g, 'loop', init_ok and bad is None and isinstance(lp.iter, ast.Name) and lp.iter.id == o_p,
               'get_attrs_to_project must return [key, join attribute] + every output attribute except the join attribute: %s'
               % (bad or 'initial list is %s' % [U(d.value) for d in init]), lp,
